@@ -238,13 +238,17 @@ fn run_case(case: &Case, st: &mut RunStats) -> Outcome<Case> {
         Ok(i) => i,
         Err((c, d)) => return Outcome::fail(c, d),
     };
-    let copy1b = match write_stage(&prog1, &ch(2), st) {
-        Ok(i) => i,
-        Err((c, d)) => return Outcome::fail(c, d),
-    };
-    if copy1 != copy1b {
-        let pos = copy1.iter().zip(copy1b.iter()).position(|(a, b)| a != b);
-        return Outcome::fail("write-not-deterministic", format!("writing the same content twice gave different files ({} vs {} bytes, first difference at {pos:?})", copy1.len(), copy1b.len()));
+    // several more executions of the same write: a nondeterministic writer (hash order, clock,
+    // randomness) then differs with overwhelming probability, so that a replay reproduces it
+    for k in 0..6 {
+        let copy1b = match write_stage(&prog1, &if k == 0 { ch(2) } else { Chunk::Full }, st) {
+            Ok(i) => i,
+            Err((c, d)) => return Outcome::fail(c, d),
+        };
+        if copy1 != copy1b {
+            let pos = copy1.iter().zip(copy1b.iter()).position(|(a, b)| a != b);
+            return Outcome::fail("write-not-deterministic", format!("writing the same content again (execution {}) gave a different file ({} vs {} bytes, first difference at {pos:?})", k + 2, copy1.len(), copy1b.len()));
+        }
     }
     // stage 3: read the copy
     let c1 = match read_stage(&copy1, &ch(3), st) {
@@ -311,7 +315,7 @@ impl Prop for C19 {
     fn meta(&self) -> Meta {
         Meta {
             level: "exploration",
-            rule: "run indices 0..19 take the bundled files of /repo/testdata (all except corrupt_crc.e57); others a seeded scene written by the crate's writer (even) or encoded by the refcodec producer under a seeded layout (odd; Integer types without minimum/maximum, attributes with min = max, extension attributes). Pipeline over simulated disks, every stage under its own seeded chunk schedule: read everything -> write a copy (same prototypes and raw values, metadata, images, blobs; executed twice) -> read the copy -> copy the copy -> read it. Oracle: every write succeeds; the two executions of the same write give byte-identical images; content of the copy = content of the original (points, prototypes, metadata, image properties, payload bytes); content and bytes of the copy of the copy = those of the copy. Distinct = hash(prototype shapes, counts, chunk schedule kinds, origin); non-trivial = at least one point or image".into(),
+            rule: "run indices 0..19 take the bundled files of /repo/testdata (all except corrupt_crc.e57); others a seeded scene written by the crate's writer (even) or encoded by the refcodec producer under a seeded layout (odd; Integer types without minimum/maximum, attributes with min = max, extension attributes). Pipeline over simulated disks, every stage under its own seeded chunk schedule: read everything -> write a copy (same prototypes and raw values, metadata, images, blobs; executed seven times) -> read the copy -> copy the copy -> read it. Oracle: every write succeeds; the two executions of the same write give byte-identical images; content of the copy = content of the original (points, prototypes, metadata, image properties, payload bytes); content and bytes of the copy of the copy = those of the copy. Distinct = hash(prototype shapes, counts, chunk schedule kinds, origin); non-trivial = at least one point or image".into(),
             assumptions: vec![
                 "compared is what the writer API can express: sources with point clouds or images without GUID, or with prototypes outside the writer's documented rules, are skipped; e57LibraryVersion ignored; bounds compared only between copy and copy-of-copy; partial colour/intensity limits of a source are not compared".into(),
                 "standalone blobs (not referenced from the XML) cannot be discovered by a reader and are not copied".into(),
